@@ -70,14 +70,32 @@ def kwargs_of(m, **extra):
     return k
 
 
-def gen_conv_cases(rng, tier, space, channel, signed_bcoh=False, force_pos=False):
+def needed_keys(space, a, b):
+    """the material constants a conversion really uses (a caller need not supply the others)"""
+    names = RN if space == 0 else GN
+    A, B = names[a], names[b]
+    need = set()
+    if space == 0:
+        if "FK" in (A, B) or "DCS" in (A, B):
+            need.add("<b_coh>^2")
+        if "DCS" in (A, B):
+            need.add("<b_tot^2>")
+    else:
+        if A != B and ("g" in (A, B) or (A, B) in (("G", "GK"), ("GK", "G"))):
+            need.add("rho")
+        if "GK" in (A, B):
+            need.add("<b_coh>^2")
+    return need
+
+
+def gen_conv_cases(rng, tier, space, channel, signed_bcoh=False, force_pos=False, nonfinite_dy=False):
     names = RN if space == 0 else GN
     pairs = [(a, b) for a in range(len(names)) for b in range(len(names)) if a != b]
     reps = 6 if tier == "quick" else 40
     cases = []
     for rep in range(reps):
         for (a, b) in pairs:
-            n = rng.choice([1, 2, 3, 5, 7, 13, rng.randint(1, 40)])
+            n = rng.choice([1, 2, 3, 5, 7, 13, rng.randint(1, 40)] + ([0] if rep % 3 == 2 else []))     # (an empty selection converts to an empty result)
             gk = rng.choice(["uniform0", "uniform", "jitter", "nonuniform"] + ([] if force_pos else ["edge"]))
             x = grid(rng, n, gk)
             if force_pos:
@@ -89,6 +107,12 @@ def gen_conv_cases(rng, tier, space, channel, signed_bcoh=False, force_pos=False
             vk = rng.choice(["around1", "wide", "ints", "zeros"]) if rep else "around1"
             y = values(rng, n, vk)
             dk, dy = uncert(rng, n)
+            if nonfinite_dy and dy is not None and n >= 2 and rng.random() < 0.2:
+                dy = list(dy)
+                dy[rng.randrange(n)] = float("inf")        # "value unknown / no weight"
+                if rng.random() < 0.4:
+                    dy[rng.randrange(n)] = float("nan")
+                dk = "nonfinite entries"
             m = material(rng, signed_bcoh)
             # integer-typed arrays with the same values must behave like floating ones
             idt = [False, False, False]
@@ -105,6 +129,7 @@ def gen_conv_cases(rng, tier, space, channel, signed_bcoh=False, force_pos=False
             cases.append({
                 "space": space, "X": a, "Y": b, "x": x, "y": y, "dy": dy, "mat": m, "channel": channel, "int_dtype": idt,
                 "callform": "kw" if (dy is not None and rep % 3 == 1) else "pos",
+                "minimal_kw": bool(rep % 2),
                 "desc": {"method": "%s_to_%s" % (names[a], names[b]), "n": n, "grid": gk, "values": vk,
                          "dy": dk, "has_zero": any(v == 0 for v in x), "has_neg": any(v < 0 for v in x), "int_arrays": "".join("1" if t else "0" for t in idt),
                          "bcoh_neg": m["bcoh"] < 0, "uncertainty_by_keyword": bool(dy is not None and rep % 3 == 1)},
@@ -126,7 +151,7 @@ def unc_kw(name):
     return "dgr"
 
 
-def call_conv(pystog, space, a, b, x, y, dy, m, idt=(False, False, False), cv=None, callform="pos"):
+def call_conv(pystog, space, a, b, x, y, dy, m, idt=(False, False, False), cv=None, callform="pos", minimal=False):
     names = RN if space == 0 else GN
     cv = cv or pystog.Converter()
     name = "%s_to_%s" % (names[a], names[b])
@@ -134,10 +159,14 @@ def call_conv(pystog, space, a, b, x, y, dy, m, idt=(False, False, False), cv=No
     x = np.array(x, dtype=np.int64 if idt[0] else float)
     y = np.array(y, dtype=np.int64 if idt[1] else float)
     d = None if dy is None else np.array(dy, dtype=np.int64 if idt[2] else float)
+    kw = kwargs_of(m)
+    if minimal:
+        need = needed_keys(space, a, b)
+        kw = {k: v_ for k, v_ in kw.items() if k in need}
     if callform == "kw" and d is not None:
-        v, e = f(x, y, **dict(kwargs_of(m), **{unc_kw(name): d}))
+        v, e = f(x, y, **dict(kw, **{unc_kw(name): d}))
     else:
-        v, e = f(x, y, d, **kwargs_of(m))
+        v, e = f(x, y, d, **kw)
     return v, e
 
 
@@ -155,7 +184,7 @@ def run_conv(pystog, case):
         if alt:
             return call_conv(pystog, case["space"], case["X"], case["Y"], case["x"], alt_y, alt_d if with_dy else None, case["mat"], cv=cv)
         return call_conv(pystog, case["space"], case["X"], case["Y"], case["x"], case["y"], case["dy"], case["mat"], idt, cv=cv,
-                         callform=case.get("callform", "pos"))
+                         callform=case.get("callform", "pos"), minimal=case.get("minimal_kw", False))
     reuse.prime(call)
     v, e = call(False, None)
     res = {"val": None if v is None else [float(t) for t in np.asarray(v, dtype=float)],
@@ -248,7 +277,7 @@ def same_arrays_twice(pystog, case):
             if not all(same(u, w) for u, w in zip(first, other)):
                 return "%s gives a different result when the uncertainty is given as a %s instead of an array" % (nm, form.__name__)
     # conversions are pointwise: column vectors of shape (n, 1) are converted element by element
-    if len(case["x"]) >= 2:
+    if len(case["x"]) >= 2 and not any(v != v for v in (case["dy"] or [])):
         try:
             col = f(x.reshape(-1, 1), y.reshape(-1, 1), None if d is None else d.reshape(-1, 1), **kw)
         except Exception as e:
